@@ -133,7 +133,7 @@ func (w *c05World) trackingInvariant() string {
 }
 
 func TestVerif_C05_Leases(t *testing.T) {
-	rec := verifx.NewRecorder("C05", "leases", "rapid state machine on a real core with a recording backend (mount default 30m / max 2h) and the token mount tuned to max 3h: issue leased secrets (ttl/max_ttl/renewable generated) and tokens (ttl, explicit_max_ttl, period), renew with generated increments through sys/leases/renew and auth/token/renew(-self), revoke, make the backend refuse revocation (irrevocable leases), restart on the same storage, restart on the store after a crash prefix of the last operation's writes, restart during which one read of a stored lease entry fails (at once, or only after the unseal call returned), step-down and re-acquisition of leadership on an HA-enabled node; oracle: a node that serves requests after a failed lease restore tracks every stored lease (or it has shut itself down); after every issue/renew the granted expiry never exceeds issue time + effective maximum (+1 s truncation), expired/revoked/non-renewable leases cannot be renewed, and at quiescence the lease ids in storage are all tracked in exactly one of pending / nonexpiring / irrevocable; non-trivial = a renewal that was capped or refused, or a restart/crash with >=2 stored leases")
+	rec := verifx.NewRecorder("C05", "leases", "rapid state machine on a real core with a recording backend (mount default 30m / max 2h) and the token mount tuned to max 3h: issue leased secrets (ttl/max_ttl/renewable generated) and tokens (ttl, explicit_max_ttl, period), renew with generated increments through sys/leases/renew and auth/token/renew(-self), revoke, make the backend refuse revocation (irrevocable leases), restart on the same storage, restart on the store after a crash prefix of the last operation's writes, restart during which one read of a stored lease entry fails (at once, or only after the unseal call returned), restart with failing requests (renewal of a non-renewable lease, revocation refused by the backend) arriving while the restore is held back, step-down and re-acquisition of leadership on an HA-enabled node; oracle: a node that serves requests after a failed lease restore tracks every stored lease (or it has shut itself down); after every issue/renew the granted expiry never exceeds issue time + effective maximum (+1 s truncation), expired/revoked/non-renewable leases cannot be renewed, and at quiescence the lease ids in storage are all tracked in exactly one of pending / nonexpiring / irrevocable; non-trivial = a renewal that was capped or refused, or a restart/crash with >=2 stored leases")
 	defer rec.Flush()
 	rapid.Check(t, func(rt *rapid.T) {
 		defer recoverWedged(rec)
@@ -426,6 +426,80 @@ func TestVerif_C05_Leases(t *testing.T) {
 				if stored >= 2 {
 					nontrivial = true
 				}
+			},
+			// restart; while the expiration manager is still restoring the leases (its listing of the lease entries is held
+			// back), requests that fail arrive for leases it has not reached yet: a renewal of a non-renewable lease, a
+			// revocation the backend refuses. When the restore has finished every stored lease must be tracked all the same.
+			"restart-with-failing-requests-during-restore": func(rt *rapid.T) {
+				if restarts >= 2 {
+					rt.Skip("enough restarts")
+				}
+				var cands []*c05Lease
+				for _, l := range w.leases {
+					if !l.dead && !l.isToken {
+						cands = append(cands, l)
+					}
+				}
+				if len(cands) == 0 {
+					rt.Skip("no secret lease")
+				}
+				restarts++
+				w.tc.shutdown()
+				me := verifx.GoID()
+				release := make(chan struct{})
+				prec := w.tc.rec
+				prec.Gate = func(o *verifx.Op) {
+					// the restore is held where it collects the lease ids (before a worker holds any lease's lock)
+					if o.G == me || (o.Kind != "list" && o.Kind != "listpage") || !strings.Contains(o.Key, "sys/expire/id") {
+						return
+					}
+					select {
+					case <-release:
+					case <-time.After(20 * time.Second):
+					}
+				}
+				ntc, err := w.tc.restartOn(w.tc.phys)
+				if err != nil {
+					close(release)
+					prec.Gate = nil
+					fail("restart-failed", fmt.Sprintf("core does not restart: %v", err))
+					return
+				}
+				w.tc = ntc
+				inRestore := ntc.c.expiration.inRestoreMode()
+				n := 1 + fairIndex(rt, "failingRequests", 3)
+				for i := 0; i < n; i++ {
+					l := cands[fairIndex(rt, "victim", len(cands))]
+					var r rr
+					what := ""
+					if !l.renewable || fairIndex(rt, "how", 2) == 0 {
+						what = "renew"
+						r = ntc.req(logical.UpdateOperation, "sys/leases/renew", w.tok, map[string]any{"lease_id": l.id, "increment": 600})
+						if r.ok() && !l.renewable {
+							fail("non-renewable-lease-renewed", fmt.Sprintf("the non-renewable lease %s was renewed during the restore", verifx.Trunc(l.id, 40)))
+						}
+					} else {
+						what = "revoke refused by the backend"
+						w.hub.mu.Lock()
+						was := w.hub.failRevoke
+						w.hub.failRevoke = true
+						w.hub.mu.Unlock()
+						r = ntc.req(logical.UpdateOperation, "sys/leases/revoke", w.tok, map[string]any{"lease_id": l.id})
+						w.hub.mu.Lock()
+						w.hub.failRevoke = was
+						w.hub.mu.Unlock()
+						if r.ok() {
+							l.dead = true
+						}
+					}
+					w.logf("during restore (in restore mode=%v): %s of %s -> %v", inRestore, what, verifx.Trunc(l.id, 30), r)
+					if !r.ok() {
+						nontrivial = true
+						rec.Class("failed-request-during-restore", 1)
+					}
+				}
+				close(release)
+				prec.Gate = nil
 			},
 			// restart during which ONE read of a stored lease entry fails while the expiration manager restores the
 			// leases: either at once, or (like a storage timeout) only after the unseal call has returned. Afterwards
